@@ -7,6 +7,7 @@ import Sebuf.DriverC09
 import Sebuf.DriverC10
 import Sebuf.DriverC13
 import Sebuf.DriverC05
+import Sebuf.DriverOA
 namespace Sebuf.DriverOps
 def dispatch (op : String) (j : Lean.Json) : Lean.Json :=
   match op with
@@ -21,6 +22,8 @@ def dispatch (op : String) (j : Lean.Json) : Lean.Json :=
   | "error_case" => Sebuf.Driver.opErrorCase j
   | "build_defects" => Sebuf.Driver.opBuildDefects j
   | "spec_enc" => Sebuf.Driver.opSpecEnc j
+  | "oa_wf" => Sebuf.Driver.opOaWf j
+  | "schema_valid" => Sebuf.Driver.opSchemaValid j
   | "strfn" => Sebuf.Driver.opStrFn j
   | _ => Lean.Json.mkObj [("driver_err", Lean.Json.str ("unknown op " ++ op))]
 end Sebuf.DriverOps
